@@ -420,7 +420,12 @@ class ProdParser:
         """
         if isinstance(text, str):
             # DEFAULT, to tokenize strip space
-            return tokenizer.tokenize(text.strip())
+            text = text.lstrip()
+            stripped = text.rstrip()
+            if stripped.endswith('\\') and stripped != text:
+                # (the space after a final backslash is escaped by it)
+                stripped += text[len(stripped)]
+            return tokenizer.tokenize(stripped)
 
         elif isinstance(text, types.GeneratorType):
             # DEFAULT, already tokenized, should be generator
